@@ -105,7 +105,7 @@ ADDENDA = {
     "C16": "Also: the seeded run, the shrinker's replays and the final report evaluate the property through one method under one budget (ExBudget::max()); a candidate replaces the counterexample only under `candidate <=/< current` comparisons on length or sequence; recorded and replayed choices use inverse byte orders (one reversal on each side, cursor = number of choices); the iteration counter is decremented once per executed run, unconditionally.",
     "C08": "Also: a branch shared by several Plutus versions names no single version in its body.",
     "C18": "Also (shared with C08): a branch shared by several Plutus versions names no single version in its body, so applying a parameter cannot re-label a V1 program as V2.",
-    "C14": "Also: The presence of a traced continuation (`otherwise.is_some()`) is passed as a value only to the reviewed naming function; every `otherwise == Term::Error.delay()` branch point chooses unknown_data_to_type vs softcast_data_to_type_otherwise; infer_trace infers every sub-expression whatever the level. The branch point of `assignment` binds through soft_cast_assignment when traced and cast_from_data otherwise, nothing else. The user expressions a `trace` evaluates are compared across levels (2 known findings: labels and arguments are level-dependent).",
+    "C14": "Also: The presence of a traced continuation (`otherwise.is_some()`) is passed as a value only to the reviewed naming function; every `otherwise == Term::Error.delay()` branch point chooses unknown_data_to_type vs softcast_data_to_type_otherwise; infer_trace infers every sub-expression whatever the level. The branch point of `assignment` binds through soft_cast_assignment when traced and cast_from_data otherwise, nothing else. The user expressions a `trace` evaluates are compared across levels (2 known findings: labels and arguments are level-dependent). The prelude code that renders a trace argument in verbose builds (`diagnostic` and the embedded Aiken functions it reaches) is total: no fail / todo / expect, every builtin with a value-dependent failure exit (read off the evaluator) under a reviewed guard, each un*Data in its own chooseData branch, constant non-zero divisors (1 known finding: constructor index >= 128).",
     "C17": "Also: No generator state is carried from one test's program to the next (C09's reset-completeness and finalize rules are part of the verdict), so the Rc-free constant cache is the only cross-program channel.",
     "C19": "Also: A version-aware failed verdict (V3: non-unit result) is an Err; witness datums are keyed by their original hash; every failed script / datum lookup propagates for every language; no comparator compares a key with itself. Every evaluation entry point reports cost against the budget its machine was created with; both arms of sort_tx_out_value sort the value. Phase one and phase two list the same certificate kinds as script-witnessed; only witness-set scripts can be extraneous.",
     "C20": "Also: The loader's `to_cbor().unwrap()` is discharged by re-running C08's decoder/encoder agreement (whatever the flat decoder builds, the encoder accepts).",
